@@ -1,7 +1,7 @@
 (* PoolProofs.v -- facts about Model/Pool.v used by C12 (and the well-formedness invariant used by C13).
    All statements are over arbitrary pool states / arbitrary histories (no bound). *)
 From Coq Require Import List NArith ZArith Bool Lia Sorting.Sorted.
-From AnyTLS Require Import Generated GeneratedFacts Pool.
+From AnyTLS Require Import Generated FactsTimed Pool.
 Import ListNotations.
 Open Scope Z_scope.
 
